@@ -135,6 +135,10 @@ const (
 )
 
 func (h *Host) Verify(pubKey gpbft.PubKey, msg, sig []byte) error {
+	if f := h.w.verifyHook; f != nil {
+		h.w.verifyHook = nil
+		f()
+	}
 	return h.w.sig.Verify(pubKey, msg, sig)
 }
 
